@@ -11,8 +11,11 @@
    Action.process_event (status / flow_scope_count), Stop events when a flow ends or a scope is closed,
    sharing of identical actions between co-winners, external <Action>Started / <Action>Finished events,
    and the removal of unreferenced actions at the start of every run.
-   NOT yet modelled (programs using them are outside the fragment): activation / restart, flow
-   parameters, priority statements, named loops, explicit FinishFlow / StopFlow events, ageing.
+   Slice 3 adds activation: StartFlow(activated=True) with reference instances and reference counting,
+   restart of an activated flow when its instance ends (and at the start_new_flow_instance label),
+   deactivation of children when the activator ends.
+   NOT yet modelled (programs using them are outside the fragment): flow parameters, priority
+   statements, named loops, explicit FinishFlow / StopFlow events, ageing.
 
    The program is the REAL compiler output (FlowConfig.elements exported as JSON by
    harness/colang2.export_sm): P below.  One TLA+ step = one run_to_completion call (macro step),
@@ -278,45 +281,85 @@ AddInstance(S, fid, hier, uidn) ==
 UidToInst(S, u) == IF u[1] = "uid" /\ \E k \in 1..Len(S.flows) : S.flows[k].uid = u[2]
                      THEN CHOOSE k \in 1..Len(S.flows) : S.flows[k].uid = u[2] ELSE 0
 
-RECURSIVE AbortFlow(_, _, _), AbortChildren(_, _, _, _), FinishFlow(_, _, _)
+IsRefActivated(S, k) ==      \* _is_reference_activated_flow
+  LET f == Fl(S, k) IN f.activated > 0 /\ f.parent # 0 /\ f.fid # Fl(S, f.parent).fid
+IsChildActivated(S, k) ==    \* _is_child_activated_flow
+  LET f == Fl(S, k) IN f.activated > 0 /\ f.parent # 0 /\ f.fid = Fl(S, f.parent).fid
+(* FlowState.start_event for a restart: same hierarchy position, new instance uid, activation count carried over *)
+RestartEvent(S, k, scores) ==
+  LET f   == Fl(S, k)
+      src == IF f.parent # 0 /\ Fl(S, f.parent).fid = f.fid THEN Fl(S, f.parent).uid ELSE f.uid
+  IN Ev("StartFlow", << <<"flow_instance_uid", <<"uid", S.nuid>>>>, <<"flow_id", <<"s", f.fid>>>>,
+                        <<"source_flow_instance_uid", <<"uid", src>>>>, <<"source_head_uid", <<"i", f.parentHead>>>>,
+                        <<"flow_hierarchy_position", <<"hier", f.hier>>>>, <<"activated", <<"i", f.activated>>>> >>, scores, "I", k)
+Restart(S, k, scores, deact) ==
+  IF ~deact /\ Fl(S, k).activated > 0 /\ ~Fl(S, k).newinst
+    THEN LET S1 == PushLeft(S, RestartEvent(S, k, scores)) IN [S1 EXCEPT !.nuid = @ + 1, !.flows[k].newinst = TRUE]
+    ELSE S
+
+RECURSIVE AbortFlow(_, _, _, _), AbortKids(_, _, _), AbortActivatedKids(_, _, _), FinishFlow(_, _, _, _)
 ClearHeads(S, k) ==          \* remove all heads from the index and from the flow
   LET S1 == [S EXCEPT !.index = RemoveAll(@, LAMBDA x : x.k = k)] IN [S1 EXCEPT !.flows[k].heads = <<>>]
 RemoveFromParent(S, k) ==
   LET f == Fl(S, k) IN
   IF f.activated = 0 /\ f.parent # 0 THEN [S EXCEPT !.flows[f.parent].children = SeqRemove(@, k)] ELSE S
-AbortChildren(S, k, kids, scores) ==
+(* "Abort/deactivate all running child flows": every child that is not a child-activated instance, with deactivate = True *)
+AbortKids(S, kids, scores) ==
   IF kids = <<>> THEN S
-  ELSE AbortChildren(AbortFlow(S, Head(kids), scores), k, Tail(kids), scores)     \* (slice 1: no activated child flows)
-AbortFlow(S, k, scores) ==
-  LET f == Fl(S, k) IN
-  IF ~Listening(f) /\ f.status # "STOPPING" THEN S
-  ELSE LET S1 == ReleaseActions(AbortChildren(S, k, f.children, scores), f.actions)    \* list(child_flow_uids): a copy taken before
-           S2 == ClearHeads(S1, k)
-           S3 == RemoveFromParent(S2, k)
-           S4 == [S3 EXCEPT !.flows[k].status = "STOPPED"]
-       IN Push(S4, FlowEvent(S4, k, "FlowFailed", scores))
-FinishFlow(S, k, scores) ==
-  LET f == Fl(S, k) IN
-  IF ~Listening(f) THEN S
-  ELSE LET S1 == ReleaseActions(AbortChildren(S, k, f.children, scores), f.actions)
-           S2 == ClearHeads(S1, k)
-       IN IF f.fid = "main"
-            THEN LET hid == Fl(S2, k).nexthid
-                     S3 == [S2 EXCEPT !.flows[k].heads = <<NewHead(hid, 0, <<>>, <<>>, <<>>)>>, !.flows[k].nexthid = hid + 1]
-                     \* _flow_head_changed is called BEFORE the head is added and the status is set: flow is STARTED there
-                     S4 == [S3 EXCEPT !.index = Append(@, [name |-> "StartFlow", k |-> k, hid |-> hid])]
-                 IN [S4 EXCEPT !.flows[k].status = "WAITING"]
-            ELSE LET S3 == [S2 EXCEPT !.flows[k].status = "FINISHED"]
-                     S4 == RemoveFromParent(S3, k)
-                 IN Push(S4, FlowEvent(S4, k, "FlowFinished", scores))
+  ELSE IF IsChildActivated(S, Head(kids)) THEN AbortKids(S, Tail(kids), scores)
+  ELSE AbortKids(AbortFlow(S, Head(kids), scores, TRUE), Tail(kids), scores)
+(* a reference instance whose count dropped to 0: abort the instances restarted from it *)
+AbortActivatedKids(S, kids, scores) ==
+  IF kids = <<>> THEN S
+  ELSE LET c == Head(kids) IN
+       IF Fl(S, c).fid = Fl(S, Fl(S, c).parent).fid
+         THEN LET S1 == AbortFlow(S, c, scores, TRUE) IN AbortActivatedKids([S1 EXCEPT !.flows[c].activated = 0], Tail(kids), scores)
+         ELSE AbortActivatedKids(S, Tail(kids), scores)
+(* returns <<S, proceed>>: the deactivation prologue shared by _abort_flow and _finish_flow *)
+Deactivate(S, k, scores, deact) ==
+  IF deact /\ IsRefActivated(S, k)
+    THEN LET S1 == [S EXCEPT !.flows[k].activated = @ - 1] IN
+         IF Fl(S1, k).activated = 0 THEN <<AbortActivatedKids(S1, Fl(S1, k).children, scores), TRUE>> ELSE <<S1, FALSE>>
+    ELSE <<S, TRUE>>
+AbortFlow(S0, k, scores, deact) ==
+  LET d == Deactivate(S0, k, scores, deact)
+      S == d[1]
+      f == Fl(S, k)
+  IN IF ~d[2] THEN S
+     ELSE IF ~Listening(f) /\ f.status # "STOPPING" THEN S
+     ELSE LET S1 == ReleaseActions(AbortKids(S, f.children, scores), f.actions)    \* list(child_flow_uids): a copy taken before
+              S2 == ClearHeads(S1, k)
+              S3 == RemoveFromParent(S2, k)
+              S4 == [S3 EXCEPT !.flows[k].status = "STOPPED"]
+              S5 == Push(S4, FlowEvent(S4, k, "FlowFailed", scores))
+          IN Restart(S5, k, scores, deact)
+FinishFlow(S0, k, scores, deact) ==
+  LET d == Deactivate(S0, k, scores, deact)
+      S == d[1]
+      f == Fl(S, k)
+  IN IF ~d[2] THEN S
+     ELSE IF ~Listening(f) THEN S
+     ELSE LET S1 == ReleaseActions(AbortKids(S, f.children, scores), f.actions)
+              S2 == ClearHeads(S1, k)
+          IN IF f.fid = "main"
+               THEN LET hid == Fl(S2, k).nexthid
+                        S3 == [S2 EXCEPT !.flows[k].heads = <<NewHead(hid, 0, <<>>, <<>>, <<>>)>>, !.flows[k].nexthid = hid + 1]
+                        \* _flow_head_changed is called BEFORE the head is added and the status is set: flow is STARTED there
+                        S4 == [S3 EXCEPT !.index = Append(@, [name |-> "StartFlow", k |-> k, hid |-> hid])]
+                    IN [S4 EXCEPT !.flows[k].status = "WAITING"]
+               ELSE LET S3 == [S2 EXCEPT !.flows[k].status = "FINISHED"]
+                        S4 == RemoveFromParent(S3, k)
+                        S5 == Push(S4, FlowEvent(S4, k, "FlowFinished", scores))
+                    IN Restart(S5, k, scores, deact)
 
 (* _start_flow: link to the parent, inherit the loop *)
 StartFlowInst(S, k, evargs) ==
   IF Fl(S, k).fid = "main" THEN S
   ELSE LET p  == UidToInst(S, ArgVal(evargs, "source_flow_instance_uid"))
            ph == ArgVal(evargs, "source_head_uid")[2]
+           av == IF "activated" \in ArgKeys(evargs) THEN ArgVal(evargs, "activated") ELSE <<"i", 0>>
            S1 == [S EXCEPT !.flows[k].parent = p, !.flows[k].parentHead = ph, !.flows[k].loop = Fl(S, p).loop,
-                           !.flows[k].activated = 0]
+                           !.flows[k].activated = IF av[1] = "b" THEN (IF av[2] THEN 1 ELSE 0) ELSE av[2]]
        IN [S1 EXCEPT !.flows[p].children = Append(@, k)]
 
 (* ------------------------------------------------------------------ slide *)
@@ -372,7 +415,12 @@ Slide(S, k, hid, fuel) ==
                         S2 == SetFl(S1, k, SetVar(Fl(S1, k), e.ref, <<"act", a>>))
                     IN Slide(SetPos(S2, k, hid, h.pos + 1), k, hid, fuel - 1))
          [] e.k = "match" -> [S |-> S, new |-> <<>>, err |-> FALSE]
-         [] e.k = "label" -> Slide(SetPos(S, k, hid, h.pos + 1), k, hid, fuel - 1)      \* (start_new_flow_instance: activation, not in slice 1)
+         [] e.k = "label" ->
+              (IF e.label = "start_new_flow_instance" /\ f.status = "STARTED"
+                 THEN LET ev == [RestartEvent(S, k, h.scores) EXCEPT !.args = ArgSet(@, "source_flow_instance_uid", <<"uid", f.uid>>)]
+                          S1 == [PushLeft(S, ev) EXCEPT !.nuid = @ + 1, !.flows[k].newinst = TRUE]
+                      IN Slide(SetPos(S1, k, hid, h.pos + 1), k, hid, fuel - 1)
+                 ELSE Slide(SetPos(S, k, hid, h.pos + 1), k, hid, fuel - 1))
          [] e.k = "goto"  ->
               LET r == Eval(S, k, e.expr) IN
               IF ~r[1] THEN [S |-> S, new |-> <<>>, err |-> TRUE]
@@ -447,7 +495,7 @@ Slide(S, k, hid, fuel) ==
                         S1 == [S EXCEPT !.flows[k].scopes = RemoveAll(@, LAMBDA x : x[1] = e.label)]
                         RECURSIVE StopKids(_, _)
                         StopKids(T, i) == IF i > Len(sc[2]) THEN T
-                                          ELSE IF Listening(Fl(T, sc[2][i])) THEN StopKids(AbortFlow(T, sc[2][i], h.scores), i + 1)
+                                          ELSE IF Listening(Fl(T, sc[2][i])) THEN StopKids(AbortFlow(T, sc[2][i], h.scores, FALSE), i + 1)
                                           ELSE StopKids(T, i + 1)
                         S2 == ReleaseActions(StopKids(S1, 1), sc[3])
                         \* remove the scope from all heads of the flow
@@ -475,7 +523,7 @@ AdvanceOne(S, kh, acc) ==
           sl == Slide(S2, k, hid, 200)
       IN IF sl.err THEN
            LET S3 == Push(sl.S, Ev("ColangError", <<>>, <<>>, "E", 0))
-           IN [S |-> AbortFlow(S3, k, Hd(S3, k, hid).scores), act |-> acc]
+           IN [S |-> AbortFlow(S3, k, Hd(S3, k, hid).scores, FALSE), act |-> acc]
          ELSE
            LET r1   == Advance(sl.S, [i \in 1..Len(sl.new) |-> <<k, sl.new[i]>>], <<>>)      \* forked / merged heads first
                S3   == r1.S
@@ -495,8 +543,8 @@ AdvanceOne(S, kh, acc) ==
                   fin  == fin0 /\ ~guard
                   acc3 == IF ~(fin0 \/ waiting) /\ ~abt /\ ElAtHead(S4, k, hid).k # "none" /\ IsActionEl(ElAtHead(S4, k, hid))
                             THEN Append(acc2, kh) ELSE acc2
-              IN IF fin THEN [S |-> FinishFlow(S4, k, h.scores), act |-> acc3]
-                 ELSE IF abt THEN [S |-> AbortFlow(S4, k, h.scores), act |-> acc3]
+              IN IF fin THEN [S |-> FinishFlow(S4, k, h.scores, FALSE), act |-> acc3]
+                 ELSE IF abt THEN [S |-> AbortFlow(S4, k, h.scores, FALSE), act |-> acc3]
                  ELSE [S |-> S4, act |-> acc3]
 Advance(S, heads, acc) ==
   IF heads = <<>> THEN [S |-> S, act |-> acc]
@@ -552,26 +600,40 @@ FailHeads(S, fs, ms) ==              \* heads with a mismatch: forward to the fa
        IF ~HasH(S, k, hid) THEN FailHeads(S, Tail(fs), ms)
        ELSE IF Hd(S, k, hid).catch # <<>>
          THEN FailHeads(SetPos(S, k, hid, LabelPos(Fl(S, k).fid, Last(Hd(S, k, hid).catch))), Tail(fs), Append(ms, Head(fs)))
-         ELSE FailHeads(AbortFlow(S, k, <<>>), Tail(fs), ms)
+         ELSE FailHeads(AbortFlow(S, k, <<>>, FALSE), Tail(fs), ms)
 
 ProcessEvent(S0, event, actionable) ==
   LET activeLoops == {S0.flows[k].loop : k \in {q \in 1..Len(S0.flows) : Listening(S0.flows[q])}}
       \* _process_internal_events_without_default_matchers (slice 1: StartFlow of a known flow other than main)
-      S1 == IF event.name = "StartFlow" /\ "flow_id" \in ArgKeys(event.args) /\ ArgVal(event.args, "flow_id")[1] = "s"
-               /\ HasCfg(ArgVal(event.args, "flow_id")[2]) /\ ArgVal(event.args, "flow_id")[2] # "main"
-               /\ "flow_instance_uid" \in ArgKeys(event.args)
-              THEN AddInstance(S0, ArgVal(event.args, "flow_id")[2], ArgVal(event.args, "flow_hierarchy_position")[2],
-                               ArgVal(event.args, "flow_instance_uid")[2])
-              ELSE S0
-      sc == ScoreCands(S1, event, Candidates(S1, event), [S |-> S1, matching |-> <<>>, failing |-> <<>>, handled |-> {}])
+      isStart == event.name = "StartFlow" /\ "flow_id" \in ArgKeys(event.args) /\ ArgVal(event.args, "flow_id")[1] = "s"
+                 /\ HasCfg(ArgVal(event.args, "flow_id")[2]) /\ ArgVal(event.args, "flow_id")[2] # "main"
+                 /\ "flow_instance_uid" \in ArgKeys(event.args)
+      sfid   == ArgVal(event.args, "flow_id")[2]
+      wantsAct == "activated" \in ArgKeys(event.args) /\ Truthy(ArgVal(event.args, "activated"))
+      \* _get_reference_activated_flow_instance (no parameters in the fragment): first activated instance of that flow whose parent is another flow
+      refs   == {q \in 1..Len(S0.flows) : S0.flows[q].fid = sfid /\ S0.flows[q].activated > 0 /\ S0.flows[q].parent # 0
+                                           /\ S0.flows[S0.flows[q].parent].fid # sfid}
+      ref    == IF isStart /\ wantsAct /\ refs # {} THEN CHOOSE q \in refs : \A r \in refs : q <= r ELSE 0
+      srcK   == IF isStart THEN UidToInst(S0, ArgVal(event.args, "source_flow_instance_uid")) ELSE 0
+      childAct == isStart /\ srcK # 0 /\ Fl(S0, srcK).fid = sfid
+      reuse  == isStart /\ ref # 0 /\ ~childAct
+      event1 == IF isStart /\ ref # 0 /\ childAct THEN [event EXCEPT !.args = ArgSet(@, "source_flow_instance_uid", <<"uid", Fl(S0, ref).uid>>)] ELSE event
+      S1 == IF reuse
+              THEN LET T1 == [S0 EXCEPT !.flows[ref].activated = @ + 1, !.flows[srcK].children = Append(@, ref)]
+                       fe == FlowEvent(T1, ref, "FlowStarted", event.scores)
+                   IN Push(T1, [fe EXCEPT !.args = ArgSet(@, "flow_instance_uid", ArgVal(event.args, "flow_instance_uid"))])
+            ELSE IF isStart
+              THEN AddInstance(S0, sfid, ArgVal(event.args, "flow_hierarchy_position")[2], ArgVal(event.args, "flow_instance_uid")[2])
+            ELSE S0
+      sc == ScoreCands(S1, event1, Candidates(S1, event1), [S |-> S1, matching |-> <<>>, failing |-> <<>>, handled |-> IF reuse THEN {<<"all", 0>>} ELSE {}])
       unhandled == activeLoops \ sc.handled
-      S2 == IF <<"all", 0>> \notin sc.handled /\ unhandled # {} /\ event.name # "UnhandledEvent"
-              THEN Push(sc.S, Ev("UnhandledEvent", ArgUpdate(event.args, << <<"event", <<"s", event.name>>>>, <<"loop_ids", <<"loops", unhandled>>>> >>),
-                                 event.scores, "I", 0))
+      S2 == IF <<"all", 0>> \notin sc.handled /\ unhandled # {} /\ event1.name # "UnhandledEvent"
+              THEN Push(sc.S, Ev("UnhandledEvent", ArgUpdate(event1.args, << <<"event1", <<"s", event1.name>>>>, <<"loop_ids", <<"loops", unhandled>>>> >>),
+                                 event1.scores, "I", 0))
               ELSE sc.S
       sorted == Items(SortPairs([i \in 1..Len(sc.matching) |-> <<sc.matching[i], Hd(S2, sc.matching[i][1], sc.matching[i][2]).scores>>], "nopad"))
-      S3a == HandleMatches(S2, event, sorted)
-      S3 == IF event.cls = "A" THEN UpdateActionStatus(S3a, event.act, event.name) ELSE S3a
+      S3a == HandleMatches(S2, event1, sorted)
+      S3 == IF event1.cls = "A" THEN UpdateActionStatus(S3a, event1.act, event1.name) ELSE S3a
       fl == FailHeads(S3, sc.failing, sorted)
       adv == AdvanceFront(fl.S, fl.matching)
       RECURSIVE Add(_, _)
@@ -618,7 +680,7 @@ ResolveGroup(S, ordered, picked, i, adv) ==
          THEN ResolveGroup(ShareAction(S, kh, SendAct(S, picked)), ordered, picked, i + 1, Append(adv, kh))
        ELSE IF Hd(S, kh[1], kh[2]).catch # <<>>
          THEN ResolveGroup(SetPos(S, kh[1], kh[2], LabelPos(Fl(S, kh[1]).fid, Last(Hd(S, kh[1], kh[2]).catch))), ordered, picked, i + 1, Append(adv, kh))
-       ELSE ResolveGroup(AbortFlow(S, kh[1], Hd(S, kh[1], kh[2]).scores), ordered, picked, i + 1, adv)
+       ELSE ResolveGroup(AbortFlow(S, kh[1], Hd(S, kh[1], kh[2]).scores, FALSE), ordered, picked, i + 1, adv)
 RECURSIVE ResolveGroups(_, _, _)
 ResolveGroups(S, groups, adv) ==
   IF groups = <<>> THEN [S |-> S, adv |-> adv]
